@@ -143,6 +143,20 @@ class G:
                     lo, hi = INT_TYPES[ty]
                     i = r.choice([lo, hi])
                     a = r.choice([MAX, -MAX, MAX - abs(i) if abs(i) < MAX else 0, a])
+                elif k == 7 and r.random() < 0.5:
+                    # the integer re-expressed with p digits overflows, although the exact sum would fit: must be the overflow signal
+                    ty = "i128"
+                    p = r.randrange(1, 19)
+                    sg = r.choice([1, -1])
+                    i = sg * (MAX // 10 ** p + 1 + r.randrange(0, 1000))
+                    t = r.randrange(0, 10 ** p)
+                    sub = op in ("sub", "csub")
+                    # pos r: a op i ; pos l: i op a — choose a so that the exact result is small
+                    if pos == "r":
+                        a = (i * 10 ** p + sg * t) if sub else -(i * 10 ** p) + sg * t
+                    else:
+                        a = (i * 10 ** p - sg * t) if sub else -(i * 10 ** p) + sg * t
+                    a = self.clamp(a)
                 elif k == 6:  # exact result exactly at / one beyond the i128 limits (-2^127 is still an i128)
                     tgt = r.choice([-MAX - 1, -MAX - 2, MAX, MAX + 1, -MAX])
                     i = max(INT_TYPES[ty][0], min(INT_TYPES[ty][1], r.choice([1, -1, 2, -2, 7, -7, i])))
@@ -436,6 +450,22 @@ class G:
                 s += r.choice("eE") + r.choice(["-", "-", "+", ""]) + str(e)
                 yield f"heven {r.choice(['parse', 's2d'])} {self.hx(s)}"
                 continue
+            if k == 8 and r.random() < 0.4:
+                # a valid literal with white space or a line end before / after it (never accepted, by no entry point)
+                s = self.literal()
+                ws = r.choice(["\n", "\r\n", "\r", "\n\n", " ", "\t", "\x0b", "\x0c"])
+                s = s + ws if r.random() < 0.7 else ws + s
+                yield f"heven parse {self.hx(s)}"
+                continue
+            if k == 7 and r.random() < 0.4:
+                # long but harmless literals: leading zeros, trailing fractional zeros compensated by the exponent (60..130 bytes)
+                ip = "0" * r.randrange(20, 60) + (self.digits(r.randrange(1, 20)).lstrip("0") or "1")
+                fz = r.randrange(0, 45)
+                fp = ("." + self.digits(r.randrange(0, 6)) + "0" * fz) if r.random() < 0.8 else ""
+                ex = r.choice("eE") + r.choice(["", "+"]) + str(r.randrange(0, 25)) if r.random() < 0.6 else ""
+                s = r.choice(["", "-", "+"]) + ip + fp + ex
+                yield f"heven {r.choice(['parse', 's2d'])} {self.hx(s)}"
+                continue
             if k == 10:
                 # a long digit run (the 8-byte SWAR window applies) with one byte replaced by a neighbour of '0'..'9' in ASCII
                 # ('/' and ':' ';' '<' '=' '>' '?'), or by a byte that differs from a digit in one bit
@@ -664,7 +694,18 @@ class G:
                 fb, eb, bias, op = 52, 11, 1023, "fromf64"
             else:
                 fb, eb, bias, op = 23, 8, 127, "fromf32"
-            if k == 0:
+            if k == 0 and r.random() < 0.5:
+                # the floats around a midpoint (m + 1/2)·10^-18 of the result grid, m from 0 to 10^17 (tiny values included)
+                import struct
+                from fractions import Fraction
+                m = r.choice([0, 1, 2, 7, 12345, r.randrange(0, 10 ** r.randrange(1, 18))])
+                x = float(Fraction(2 * m + 1, 2 * 10 ** 18))
+                if fb == 52:
+                    bits = struct.unpack("<Q", struct.pack("<d", x))[0] + r.randrange(-3, 4)
+                else:
+                    bits = struct.unpack("<I", struct.pack("<f", x))[0] + r.randrange(-3, 4)
+                bits = max(0, bits)
+            elif k == 0:
                 bits = r.getrandbits(fb + eb + 1)
             elif k in (1, 2):  # odd multiples of 2^-j, j = 19..60: exact ties / near ties at the 18th digit
                 j = r.randrange(19, 61)
